@@ -664,7 +664,7 @@ theorem default_srp_and_anon_pairs_complete :
     okWith (negotiateFor dflt dflt srpClient srpServer) (fun p => p.version == 3 && srpSuites.contains p.suite) = true ∧
     okWith (negotiateFor dflt dflt srpClient (srpCertServer rsaCred)) (fun p => p.version == 3 && srpCertSuites.contains p.suite) = true ∧
     okWith (negotiateFor dflt dflt anonClient anonServer) (fun p => p.version == 3 && isAnonSuite p.suite) = true ∧
-    negotiate dflt dflt srpClient srpServer = .alert .server "insufficient_security" := by
+    negotiate dflt dflt srpClient srpServer = .alert .server "handshake_failure" := by
   refine ⟨?_, ?_, ?_, ?_⟩ <;> decide +kernel
 
 /-- regression (65e20d7): a client offering only srp_sha completes with a server that has a verifier database
